@@ -102,6 +102,24 @@ func consumePrefix(s, prefix string) (string, bool) {
 	return s, false
 }
 
+// asciiLower lower-cases the ASCII letters of s and leaves every other byte
+// alone. strings.ToLower would also fold non-ASCII letters to ASCII ones
+// (U+0130 to 'i'), letting "\u0130nf" through as "inf".
+func asciiLower(s string) string {
+	for i := 0; i < len(s); i++ {
+		if c := s[i]; c >= 'A' && c <= 'Z' {
+			b := []byte(s)
+			for j := i; j < len(b); j++ {
+				if c := b[j]; c >= 'A' && c <= 'Z' {
+					b[j] = c + ('a' - 'A')
+				}
+			}
+			return string(b)
+		}
+	}
+	return s
+}
+
 // isDigits reports whether s is a non-empty string of ASCII digits.
 func isDigits(s string) bool {
 	if s == "" {
@@ -121,7 +139,7 @@ func (d *Decimal) setString(c *Context, s string) (Condition, error) {
 	if !d.Negative {
 		s, _ = consumePrefix(s, "+")
 	}
-	s = strings.ToLower(s)
+	s = asciiLower(s)
 	d.Exponent = 0
 	d.Coeff.SetInt64(0)
 	// Until there are no parse errors, leave as NaN.
